@@ -171,6 +171,50 @@ theorem claim_failed_keeps {c : Cfg} {l : Local} {file : File} {din : Option Des
     · exact absurd rfl h
     · subst h; simp [r, step, hk, hs, lcClaim, commit]
 
+/-- a heartbeat that finds the own entry keeps the tokens the RING records (not the remembered ones) -/
+theorem heartbeat_keeps_ring_tokens {c : Cfg} {l : Local} {file : File} {din : Option Desc} {now : Int} {gen : Gen} {fault : Fault}
+    {e b : Inst} {d' : Desc} (he : Desc.get? (din.getD []) c.id = some e)
+    (h : (step c l file din .heartbeat now gen fault).out = .write d') (hb : Desc.get? d' c.id = some b) :
+    b.tokens = e.tokens ∧ b.regTs = (match c.kind with | .LC => l.regTs | .BLC => e.regTs) := by
+  by_cases hs : l.started = true
+  · cases hk : c.kind with
+    | LC =>
+      by_cases hf : fault = .failBefore
+      · simp [step, hk, hs, lcUpdate, hf] at h
+      · simp [step, hk, hs, lcUpdate, hf, he] at h
+        subst h
+        rw [get?_put] at hb
+        simp [lcInst] at hb
+        subst hb
+        simp [lcInst]
+    | BLC =>
+      simp only [step, hk, hs, Bool.not_true, Bool.false_eq_true, if_false] at h
+      have := (blcUpdate_get (keepsId_hb c now) he h).2
+      rw [this] at hb
+      simp [updHeartbeat] at hb
+      subst hb
+      simp
+  · have hs' : l.started = false := by simpa using hs
+    cases hk : c.kind <;> simp [step, hk, hs', noop] at h
+
+/-- `Lifecycler.changeState` remembers the new state BEFORE it writes: whatever the store does with the write
+(accept, reject before or after the callback), the lifecycler is in the new state afterwards and every later
+heartbeat the store accepts publishes it. -/
+theorem state_survives_rejected_write {c : Cfg} {l : Local} {file : File} {din : Option Desc} {s : State} {now : Int} {gen : Gen}
+    {fault : Fault} (hk : c.kind = .LC) (hs : l.started = true) (hal : allowed l.state s = true) :
+    let r := step c l file din (.changeState s) now gen fault
+    r.l.state = s ∧ r.l.started = true ∧ r.l.tokens = l.tokens ∧
+    ∀ (din' : Option Desc) (now' : Int) (gen' : Gen), ∃ d' b,
+      (step c r.l r.file din' .heartbeat now' gen' .none).out = .write d' ∧ Desc.get? d' c.id = some b ∧ b.state = s := by
+  intro r
+  have h1 : r.l.state = s ∧ r.l.started = true ∧ r.l.tokens = l.tokens := by
+    cases fault <;> cases hg : Desc.get? (din.getD []) c.id <;>
+      simp [r, step, hk, hs, lcChangeState, hal, lcUpdate, hg]
+  refine ⟨h1.1, h1.2.1, h1.2.2, fun din' now' gen' => ?_⟩
+  simp only [step, hk, h1.2.1, Bool.not_true, Bool.false_eq_true, if_false, lcUpdate, reduceCtorEq]
+  refine ⟨_, _, rfl, get?_put_self _ _, ?_⟩
+  cases hg : Desc.get? (din'.getD []) c.id <;> simp [lcInst, h1.1]
+
 /-! ### the restart procedure reaches ACTIVE -/
 
 def Present (c : Cfg) (st : Option Desc) : Prop := (Desc.get? (st.getD []) c.id).isSome = true
